@@ -5,7 +5,7 @@ package recovery
 // Machine-checked contracts (comment-only; compiled to nothing). Checked by /verif/bin/stfsvc.
 
 //@ func Index
-//@   property C10
+//@   property C10 also C11
 //@   safety C10
 //@   requires decryptHeader != nil && verifyHeader != nil
 //@   modifies *, indexWrites, ghosts(C04), ghosts(C08), ghosts(C09), ghosts(C14), ghosts(C07)
@@ -26,7 +26,7 @@ package recovery
 //@   at call indexHeader#2 assert [accept-site-tape] hdrVerified[arg_hdr] || hdrSubstituted[arg_hdr]
 
 //@ func Query
-//@   property C10
+//@   property C10 also C11
 //@   safety C10
 //@   modifies *, ghosts(C04), ghosts(C08), ghosts(C09), ghosts(C14), ghosts(C07)
 //@   ensures [drive-unchanged] driveHeld == old(driveHeld)
@@ -41,7 +41,7 @@ package recovery
 //@   at call TarHeaderToDBHeader#1 assert [header-position] 512*(pipes.RecordSize*arg_record+arg_block) == hdrStart(arg_tarhdr) && 0 <= arg_block && arg_block < pipes.RecordSize
 
 //@ func Fetch
-//@   property C10
+//@   property C10 also C11
 //@   safety C10
 //@   modifies *, ghosts(C04), ghosts(C08), ghosts(C09), ghosts(C14), ghosts(C07)
 //@   ensures [drive-unchanged] driveHeld == old(driveHeld)
@@ -52,7 +52,7 @@ package recovery
 //@   at call mkdirAll assert [accept-site-dir] hdrVerified[hdr]
 
 //@ func indexHeader
-//@   property C10
+//@   property C10 also C11
 //@   safety C10
 //@   modifies *, indexWrites, hdrVerified[hdr], hdrSubstituted[hdr], hdrSealed[hdr], ghosts(C14), ghosts(C07)
 //@   property C03
